@@ -7,13 +7,13 @@ sys.path.insert(0, os.path.join(ROOT, 'tools'))
 import props
 
 TEXT = {
- 'C01': ('ECDSA verify/sign/recover model proved exact (verify ⇔ ECDSA equation with low-S and r,s ranges; signing output verifies and recovers; invalid key / failing nonce give zeros) and tied to the C code by correspondence over boundary scalars, messages ≥ n, custom nonce functions, all recids, in several limb configurations.',
+ 'C01': ('The scalar/point-level cores secp256k1_ecdsa_sig_verify / _sig_sign / _sig_recover REGENERATED from the C sources are proved to compute exactly the model functions (C01_ir), and the ECDSA verify/sign/recover model is proved exact (verify ⇔ ECDSA equation with low-S and r,s ranges; signing output verifies and recovers; invalid key / failing nonce give zeros) and tied to the C code by correspondence over boundary scalars, messages ≥ n, custom nonce functions, all recids, in several limb configurations.',
          'Lean kernel + Mathlib; group law of the model proved against Mathlib\'s Weierstrass group (Proofs/Group.lean); cofactor-1 never assumed; tie to C = differential testing (harness + generators); retry-loop termination not proved (fuel).'),
- 'C02': ('BIP-340 verify proved equal to the BIP\'s Verify predicate for every 64-byte string / message / key; default signing proved to verify for both key and nonce parities; aux NULL = zero aux; model tied to C by correspondence on every message length 0..300 (sampled above), bit flips and re-encodings.',
+ 'C02': ('secp256k1_schnorrsig_verify REGENERATED from the C source is proved to compute exactly the model function (C02_ir); BIP-340 verify proved equal to the BIP\'s Verify predicate for every 64-byte string / message / key; default signing proved to verify for both key and nonce parities; aux NULL = zero aux; model tied to C by correspondence on every message length 0..300 (sampled above), bit flips and re-encodings.',
          'Lean kernel + Mathlib; tagged-hash midstates tied by correspondence and by kernel-checked equality with the tag-derived state; tie to C = differential testing.'),
  'C03': ('Every parser/serializer of keys and signatures is modelled line by line; DER parse proved to accept exactly the canonical X.690 encoding (full iff), round trips, size negotiation, compact range checks, failed parse leaves a never-verifying object, pubkey parse iff; tie by exhaustive structural enumeration (every prefix byte, length, DER shape) against the real parsers under ASan/UBSan.',
          'Lean kernel (core only for C03, no Mathlib); compressed-key round trip carries the square-root hypothesis until linked with Proofs/Field; tie to C = differential testing of the hand-written model.'),
- 'C04': ('Heap sort proved to return a sorted permutation for every length and every total preorder (fuel sufficiency included); key-algebra commutation proved under the group law; all 15+ API functions tied by correspondence incl. chains of mixed tweaks, cancelling combines, sort lengths to 200.',
+ 'C04': ('The public key-tweak / negate functions REGENERATED from the C sources are proved to compute exactly the model functions (C04_ir); heap sort proved to return a sorted permutation for every length and every total preorder (fuel sufficiency included); key-algebra commutation proved under the group law; all 15+ API functions tied by correspondence incl. chains of mixed tweaks, cancelling combines, sort lengths to 200.',
          'Lean kernel + Mathlib for the algebra part; statements about arbitrary parsed keys that need n·Q = ∞ carry that hypothesis explicitly; tie to C = differential testing.'),
  'C05': ('Limb-level and group-level theorems about code REGENERATED from the C sources on every run: 5x52 and 10x26 field mul/sqr/normalize/add/mul_int/half/negate exact for all limb values within the documented magnitudes (plus the invariant that keeps the 10x26 normalisation away from finding F4), scalar 4x64 AND 8x32 add/negate/mul_512/reduce_512/mul/half/cadd_bit (4x64 also mul_shift_var for every shift), the emulated 128-bit integer and the field multiplication built on it (by a verified simulation against the native kernel), the square-root addition chain with ge_set_xquad / ge_set_xo_var = the model lift_x, and the group functions of group_impl.h (gej_double, complete gej_add_ge, gej_add_var, gej_add_ge_var, gej_add_zinv_var, ...) proved equal to the affine group law with every magnitude precondition discharged statically; SHA-256 streaming = one-shot for every chunking, tagged hashes, HMAC, RFC 6979; every translated function is also executed against the real one (k_run, f_run) and the whole arithmetic API is compared with the model in four limb/asm configurations (six in the thorough tier).',
          'Lean kernel + Mathlib; translator tools/c2lean_k.py / c2lean_f.py over clang-14 ASTs (validated by running IR and C function on the same inputs); the value semantics of the group-level IR rests on the limb-level theorems, their composition (argument aliasing inside field primitives) is checked by correspondence only; x86-64 assembly, safegcd modinv, wNAF/Strauss/Pippenger/comb algorithms are tied by correspondence only (with carry-maximising crafted inputs); known findings F4 (10x26 normalisation on the magnitude-32 extreme of fe_get_bounds) and F5 (fe_equal at b magnitude 31).'),
